@@ -1,7 +1,12 @@
-(* FormsChunks.v - C05: XalanOutputStream buffering: the callback chunks concatenate to the written data. *)
+(* FormsChunks.v - C05: XalanOutputStream buffering: the callback chunks concatenate to the written data.
+   Every lemma holds for both variants k of the stream (FormsDefs.ostep_k): the original one and the one that
+   keeps a trailing high surrogate back when it flushes because more data is coming. *)
 From Coq Require Import NArith List Bool Lia ZifyBool ZifyNat ZifyN.
 Import ListNotations.
 Require Import XV.GenForms XV.FormsDefs.
+
+Lemma rev_eq_cons : forall (A : Type) (l : list A) x r, rev l = x :: r -> l = rev r ++ [x].
+Proof. intros A l x r H. rewrite <- (rev_involutive l), H. reflexivity. Qed.
 
 Section Transcoded.
   (* the transcoder applied by doWrite to each flushed block; only assumed to act block-wise
@@ -36,24 +41,68 @@ Section Transcoded.
   Lemma flush_empties : forall st, o_buf (flush_buffer st) = [].
   Proof. intros [buf out]; unfold flush_buffer; cbn [o_buf]; destruct buf; reflexivity. Qed.
 
-  Lemma ostep_keeps : forall bs st w,
-    (match w with ONarrow _ => o_buf st = [] | _ => True end) ->
-    sent (ostep bs st w) ++ tc (o_buf (ostep bs st w)) = (sent st ++ tc (o_buf st)) ++ bytes_w w.
+  Lemma flush_sent : forall buf out, sent (mkO [] (o_out (flush_buffer (mkO buf out)))) = sent (mkO [] out) ++ tc buf.
   Proof.
-    intros bs st w Hn. destruct w; cbn [ostep bytes_w].
+    intros buf out. unfold flush_buffer; cbn [o_buf o_out]. destruct buf as [|x b].
+    - cbn [o_out]. rewrite tc_nil, app_nil_r. reflexivity.
+    - cbn [o_out]. rewrite sent_cons. reflexivity.
+  Qed.
+
+  Lemma ffm_keeps : forall k st,
+    sent (flush_for_more k st) ++ tc (o_buf (flush_for_more k st)) = sent st ++ tc (o_buf st).
+  Proof.
+    intros k [buf out]; unfold flush_for_more; cbn [o_buf o_out]. destruct k; [|apply flush_keeps].
+    destruct (rev buf) as [|last r] eqn:E; [apply flush_keeps|].
+    destruct (is_high_surrogate last); [|apply flush_keeps].
+    cbn [o_buf]. rewrite (sent_buf [last] []), flush_sent, (rev_eq_cons _ _ _ _ E), tc_app, app_assoc. reflexivity.
+  Qed.
+
+  Lemma big_block_keeps : forall st d,
+    sent (big_block st d) ++ tc (o_buf (big_block st d)) = (sent st ++ tc (o_buf st)) ++ tc d.
+  Proof.
+    intros [buf out] d. unfold big_block. cbn [o_buf o_out].
+    destruct d as [|x d']; [rewrite tc_nil, app_nil_r; reflexivity|].
+    assert (H2 : forall out2 d2, sent (mkO [] out2) ++ tc d2 = (sent (mkO buf out) ++ tc buf) ++ tc (x :: d') ->
+      let st' := match rev d2 with
+                 | [] => mkO [] out2
+                 | last :: r => if is_high_surrogate last
+                                then mkO [last] (match r with [] => out2 | _ => CWide (rev r) :: out2 end)
+                                else mkO [] (CWide d2 :: out2)
+                 end in
+      sent st' ++ tc (o_buf st') = (sent (mkO buf out) ++ tc buf) ++ tc (x :: d')).
+    { intros out2 d2 H. cbn zeta. destruct (rev d2) as [|last r] eqn:E.
+      - assert (d2 = []) by (rewrite <- (rev_involutive d2), E; reflexivity). subst d2. cbn [o_buf]. exact H.
+      - rewrite (rev_eq_cons _ _ _ _ E) in H. destruct (is_high_surrogate last).
+        + cbn [o_buf]. destruct r as [|y r'].
+          * cbn [rev app] in H. rewrite (sent_buf [last] []). exact H.
+          * rewrite sent_cons. cbn [bytes_c]. rewrite <- app_assoc, <- tc_app. exact H.
+        + cbn [o_buf]. rewrite sent_cons, tc_nil, app_nil_r. cbn [bytes_c]. rewrite (rev_eq_cons _ _ _ _ E). exact H. }
+    destruct buf as [|b0 b].
+    - apply H2. rewrite tc_nil, app_nil_r. reflexivity.
+    - apply H2. rewrite sent_cons. cbn [bytes_c]. rewrite <- !app_assoc, <- !tc_app. rewrite <- app_assoc. reflexivity.
+  Qed.
+
+  Lemma ostep_keeps : forall k bs st w,
+    (match w with ONarrow _ => o_buf st = [] | _ => True end) ->
+    sent (ostep_k k bs st w) ++ tc (o_buf (ostep_k k bs st w)) = (sent st ++ tc (o_buf st)) ++ bytes_w w.
+  Proof.
+    intros k bs st w Hn. destruct w; cbn [ostep_k bytes_w].
     - (* OWide *)
       destruct (N.ltb bs (len d)) eqn:E2.
       + assert (E1 : N.ltb bs (len d + len (o_buf st)) = true) by (unfold len in *; lia). rewrite E1.
-        pose proof (flush_keeps st) as Hk. pose proof (flush_empties st) as He.
-        destruct (flush_buffer st) as [b o]. cbn [o_buf o_out] in *. subst b.
-        rewrite sent_cons. cbn [bytes_c o_buf]. rewrite tc_nil, app_nil_r in *. rewrite <- Hk. reflexivity.
-      + destruct (N.ltb bs (len d + len (o_buf st))).
-        * pose proof (flush_keeps st) as Hk. destruct (flush_buffer st) as [b o]. cbn [o_buf o_out] in *.
-          rewrite (sent_buf (b ++ d) b o), tc_app, app_assoc, Hk. reflexivity.
-        * destruct st as [b o]. cbn [o_buf o_out]. rewrite (sent_buf (b ++ d) b o), tc_app, app_assoc. reflexivity.
+        destruct k.
+        * rewrite big_block_keeps, ffm_keeps. reflexivity.
+        * unfold flush_for_more. pose proof (flush_keeps st) as Hk. pose proof (flush_empties st) as He.
+          destruct (flush_buffer st) as [b o]. cbn [o_buf o_out] in *. subst b.
+          rewrite sent_cons. cbn [bytes_c o_buf]. rewrite tc_nil, app_nil_r in *. rewrite <- Hk. reflexivity.
+      + set (st1 := if N.ltb bs (len d + len (o_buf st)) then flush_for_more k st else st).
+        assert (H1 : sent st1 ++ tc (o_buf st1) = sent st ++ tc (o_buf st)).
+        { unfold st1. destruct (N.ltb bs (len d + len (o_buf st))); [apply ffm_keeps | reflexivity]. }
+        destruct st1 as [b o]. cbn [o_buf o_out] in *. rewrite (sent_buf (b ++ d) b o), tc_app, app_assoc, H1. reflexivity.
     - (* OChar *)
-      destruct (N.eqb (len (o_buf st)) bs).
-      + pose proof (flush_keeps st) as Hk. destruct (flush_buffer st) as [b o]. cbn [o_buf o_out] in *.
+      set (full := if k then N.leb bs (len (o_buf st)) else N.eqb (len (o_buf st)) bs).
+      destruct full.
+      + pose proof (ffm_keeps k st) as Hk. destruct (flush_for_more k st) as [b o]. cbn [o_buf o_out] in *.
         rewrite (sent_buf (b ++ [c]) b o), tc_app, app_assoc, Hk. reflexivity.
       + destruct st as [b o]. cbn [o_buf o_out]. rewrite (sent_buf (b ++ [c]) b o), tc_app, app_assoc. reflexivity.
     - (* ONarrow *)
@@ -63,47 +112,47 @@ Section Transcoded.
       rewrite app_nil_r. apply flush_keeps.
   Qed.
 
-  Lemma orun_keeps : forall ws bs st, narrow_ok_from bs st ws = true ->
-    let st' := fold_left (ostep bs) ws st in
+  Lemma orun_keeps : forall k ws bs st, narrow_ok_from k bs st ws = true ->
+    let st' := fold_left (ostep_k k bs) ws st in
     sent st' ++ tc (o_buf st') = (sent st ++ tc (o_buf st)) ++ flat_map bytes_w ws.
   Proof.
     induction ws as [|w r IH]; intros bs st H; cbn [fold_left flat_map].
     - rewrite app_nil_r. reflexivity.
     - cbn [narrow_ok_from] in H. apply andb_prop in H; destruct H as [H1 H2].
-      specialize (IH bs (ostep bs st w) H2). cbn zeta in IH. rewrite IH, ostep_keeps, app_assoc; [reflexivity|].
+      specialize (IH bs (ostep_k k bs st w) H2). cbn zeta in IH. rewrite IH, ostep_keeps, app_assoc; [reflexivity|].
       destruct w; try exact I. destruct (o_buf st); [reflexivity | discriminate].
   Qed.
 
-  Lemma chunks_bytes_pending : forall bs ws, narrow_ok bs ws = true ->
-    flat_map bytes_c (chunks bs ws) ++ tc (o_buf (orun bs ws)) = flat_map bytes_w ws.
+  Lemma chunks_bytes_pending_k : forall k bs ws, narrow_ok_k k bs ws = true ->
+    flat_map bytes_c (chunks_k k bs ws) ++ tc (o_buf (orun_k k bs ws)) = flat_map bytes_w ws.
   Proof.
-    intros bs ws H. unfold narrow_ok in H. pose proof (orun_keeps ws (eff_size bs) (mkO [] []) H) as Hk.
+    intros k bs ws H. unfold narrow_ok_k in H. pose proof (orun_keeps k ws (eff_size bs) (mkO [] []) H) as Hk.
     cbn zeta in Hk. unfold sent in Hk at 2. cbn [o_out o_buf rev flat_map app] in Hk. rewrite tc_nil in Hk. exact Hk.
   Qed.
 
-  Lemma orun_flush : forall bs ws, orun bs (ws ++ [OFlush]) = flush_buffer (orun bs ws).
-  Proof. intros; unfold orun; rewrite fold_left_app; reflexivity. Qed.
+  Lemma orun_flush : forall k bs ws, orun_k k bs (ws ++ [OFlush]) = flush_buffer (orun_k k bs ws).
+  Proof. intros; unfold orun_k; rewrite fold_left_app; reflexivity. Qed.
 
-  Lemma chunks_bytes : forall bs ws, narrow_ok bs ws = true ->
-    flat_map bytes_c (chunks bs (ws ++ [OFlush])) = flat_map bytes_w ws.
+  Lemma chunks_bytes_k : forall k bs ws, narrow_ok_k k bs ws = true ->
+    flat_map bytes_c (chunks_k k bs (ws ++ [OFlush])) = flat_map bytes_w ws.
   Proof.
-    intros bs ws H. rewrite <- (chunks_bytes_pending bs ws H). unfold chunks. rewrite orun_flush.
-    pose proof (flush_keeps (orun bs ws)) as Hk. rewrite flush_empties, tc_nil, app_nil_r in Hk. exact Hk.
+    intros k bs ws H. rewrite <- (chunks_bytes_pending_k k bs ws H). unfold chunks_k. rewrite orun_flush.
+    pose proof (flush_keeps (orun_k k bs ws)) as Hk. rewrite flush_empties, tc_nil, app_nil_r in Hk. exact Hk.
   Qed.
 End Transcoded.
 
 (* code-unit level: tc = identity *)
-Lemma chunks_units : forall bs ws, narrow_ok bs ws = true -> delivered (chunks bs (ws ++ [OFlush])) = written ws.
+Lemma chunks_units_k : forall k bs ws, narrow_ok_k k bs ws = true -> delivered (chunks_k k bs (ws ++ [OFlush])) = written ws.
 Proof.
-  intros bs ws H. pose proof (chunks_bytes (fun x => x) (fun a b => eq_refl) bs ws H) as Hk.
+  intros k bs ws H. pose proof (chunks_bytes_k (fun x => x) (fun a b => eq_refl) k bs ws H) as Hk.
   unfold delivered, written.
   erewrite flat_map_ext; [erewrite (flat_map_ext write_data)|]; [exact Hk | |]; intros []; reflexivity.
 Qed.
 
-Lemma chunks_units_pending : forall bs ws, narrow_ok bs ws = true ->
-  delivered (chunks bs ws) ++ o_buf (orun bs ws) = written ws.
+Lemma chunks_units_pending_k : forall k bs ws, narrow_ok_k k bs ws = true ->
+  delivered (chunks_k k bs ws) ++ o_buf (orun_k k bs ws) = written ws.
 Proof.
-  intros bs ws H. pose proof (chunks_bytes_pending (fun x => x) (fun a b => eq_refl) bs ws H) as Hk.
+  intros k bs ws H. pose proof (chunks_bytes_pending_k (fun x => x) (fun a b => eq_refl) k bs ws H) as Hk.
   unfold delivered, written.
   erewrite flat_map_ext; [erewrite (flat_map_ext write_data)|]; [exact Hk | |]; intros []; reflexivity.
 Qed.
@@ -113,59 +162,137 @@ Definition utf16le (l : list N) : list N := flat_map (fun u => [N.modulo u 256; 
 Lemma utf16le_app : forall a b, utf16le (a ++ b) = utf16le a ++ utf16le b.
 Proof. intros; unfold utf16le; apply flat_map_app. Qed.
 
-(* the buffer never exceeds the (effective) buffer size, and a chunk is either at most one buffer
-   or exactly one oversized write *)
-Definition chunk_ok (bs : N) (ws : list owrite) (c : ochunk) : Prop :=
+(** ** sizes: the buffer holds at most its size (plus the one high surrogate kept back in the repaired
+    variant); a chunk is at most that long, or it is (original variant) exactly one oversized write /
+    (repaired variant) a piece of one oversized write *)
+Definition slack (k : bool) : N := if k then 1%N else 0%N.
+
+Definition chunk_ok (k : bool) (bs : N) (ws : list owrite) (c : ochunk) : Prop :=
   match c with
-  | CWide d => (len d <= bs)%N \/ In (OWide d) ws
+  | CWide d => (len d <= bs + slack k)%N
+               \/ (if k then exists w, In (OWide w) ws /\ (len d <= len w)%N else In (OWide d) ws)
   | CNarrow d => In (ONarrow d) ws
   end.
 
-Lemma ostep_bound : forall bs st w, (1 <= bs)%N -> (len (o_buf st) <= bs)%N -> (len (o_buf (ostep bs st w)) <= bs)%N.
+Lemma ffm_buf : forall k st, (len (o_buf (flush_for_more k st)) <= slack k)%N.
 Proof.
-  intros bs [b o] w Hb H. destruct w; cbn [ostep o_buf o_out] in *; unfold len in *.
-  - destruct (N.ltb bs (N.of_nat (length d))) eqn:E2.
-    + destruct (N.ltb bs (N.of_nat (length d) + N.of_nat (length b))); [|cbn [o_buf]; lia]. unfold flush_buffer; cbn [o_buf]. destruct b; cbn [o_buf length] in *; lia.
-    + destruct (N.ltb bs (N.of_nat (length d) + N.of_nat (length b))) eqn:E1.
-      * unfold flush_buffer; cbn [o_buf]. destruct b; cbn [o_buf app] in *; rewrite ?app_length; cbn [length]; lia.
-      * cbn [o_buf]. rewrite app_length. lia.
-  - destruct (N.eqb (N.of_nat (length b)) bs) eqn:E.
-    + unfold flush_buffer; cbn [o_buf]. destruct b; cbn [o_buf app length] in *; lia.
-    + cbn [o_buf]. rewrite app_length. cbn [length]. lia.
-  - assumption.
-  - unfold flush_buffer; cbn [o_buf]. destruct b; cbn [o_buf length] in *; lia.
+  intros k [buf out]. unfold flush_for_more, slack, len. cbn [o_buf o_out].
+  assert (Hf : o_buf (flush_buffer (mkO buf out)) = []) by (unfold flush_buffer; cbn [o_buf]; destruct buf; reflexivity).
+  destruct k; [|rewrite Hf; cbn; lia].
+  destruct (rev buf) as [|last r]; [rewrite Hf; cbn; lia|].
+  destruct (is_high_surrogate last); [cbn; lia | rewrite Hf; cbn; lia].
 Qed.
 
-Lemma ostep_chunks_ok : forall bs st w (P : ochunk -> Prop),
-  (len (o_buf st) <= bs)%N -> Forall P (o_out st) ->
-  (forall d, (len d <= bs)%N -> P (CWide d)) ->
-  (match w with OWide d => P (CWide d) | ONarrow d => P (CNarrow d) | _ => True end) ->
-  Forall P (o_out (ostep bs st w)).
+Lemma flush_out : forall st (P : ochunk -> Prop), Forall P (o_out st) -> P (CWide (o_buf st)) -> Forall P (o_out (flush_buffer st)).
 Proof.
-  intros bs [b o] w P Hb Ho Hs Hw. assert (Hf : Forall P (o_out (flush_buffer (mkO b o)))).
-  { unfold flush_buffer; cbn [o_buf o_out]. destruct b; [assumption|]. constructor; [apply Hs; assumption | assumption]. }
-  destruct w; cbn [ostep o_buf o_out] in *.
-  - destruct (N.ltb bs (len d)); destruct (N.ltb bs (len d + len b)); cbn [o_out]; try assumption; constructor; assumption.
-  - destruct (N.eqb (len b) bs); cbn [o_out]; assumption.
-  - constructor; assumption.
-  - assumption.
+  intros [buf out] P Ho Hb. unfold flush_buffer; cbn [o_buf o_out] in *. destruct buf; [assumption | constructor; assumption].
 Qed.
 
-Lemma orun_chunks_ok : forall ws0 ws bs st, (1 <= bs)%N -> (len (o_buf st) <= bs)%N ->
-  Forall (chunk_ok bs (ws0 ++ ws)) (o_out st) ->
-  Forall (chunk_ok bs (ws0 ++ ws)) (o_out (fold_left (ostep bs) ws st)) /\ (len (o_buf (fold_left (ostep bs) ws st)) <= bs)%N.
+Lemma ffm_out : forall k st (P : ochunk -> Prop), Forall P (o_out st) ->
+  (forall d, (len d <= len (o_buf st))%N -> P (CWide d)) -> Forall P (o_out (flush_for_more k st)).
 Proof.
-  intros ws0 ws; revert ws0. induction ws as [|w r IH]; intros ws0 bs st Hbs Hb Ho; cbn [fold_left].
+  intros k [buf out] P Ho Hs. unfold flush_for_more; cbn [o_buf o_out] in *.
+  assert (Hf : Forall P (o_out (flush_buffer (mkO buf out)))) by (apply flush_out; [assumption | apply Hs; cbn [o_buf]; lia]).
+  destruct k; [|exact Hf].
+  destruct (rev buf) as [|last r] eqn:E; [exact Hf|].
+  destruct (is_high_surrogate last); [|exact Hf].
+  cbn [o_out]. apply flush_out; [assumption|]. cbn [o_buf]. apply Hs.
+  unfold len. rewrite rev_length, <- (rev_length buf), E. cbn [length]. lia.
+Qed.
+
+Lemma big_block_buf : forall st d, (len (o_buf st) <= 1)%N -> (len (o_buf (big_block st d)) <= 1)%N.
+Proof.
+  intros [buf out] d H. unfold big_block; cbn [o_buf o_out]. destruct d as [|x d']; [exact H|].
+  destruct buf as [|b0 b].
+  - destruct (rev (x :: d')) as [|last r]; [cbn; lia|]. destruct (is_high_surrogate last); cbn; lia.
+  - destruct (rev d') as [|last r]; [cbn; lia|]. destruct (is_high_surrogate last); cbn; lia.
+Qed.
+
+Lemma big_block_out : forall st d (P : ochunk -> Prop), Forall P (o_out st) ->
+  (forall e, (len e <= len (o_buf st) + 1)%N -> P (CWide e)) -> (forall e, (len e <= len d)%N -> P (CWide e)) ->
+  Forall P (o_out (big_block st d)).
+Proof.
+  intros [buf out] d P Ho Hs Hd. unfold big_block; cbn [o_buf o_out] in *. destruct d as [|x d']; [exact Ho|].
+  assert (H2 : forall out2 d2, Forall P out2 -> (len d2 <= len (x :: d'))%N ->
+    Forall P (o_out (match rev d2 with
+                     | [] => mkO [] out2
+                     | last :: r => if is_high_surrogate last
+                                    then mkO [last] (match r with [] => out2 | _ => CWide (rev r) :: out2 end)
+                                    else mkO [] (CWide d2 :: out2)
+                     end))).
+  { intros out2 d2 H2 Hl. destruct (rev d2) as [|last r] eqn:E; [exact H2|].
+    destruct (is_high_surrogate last); cbn [o_out].
+    - destruct r as [|y r']; [exact H2|]. constructor; [|exact H2]. apply Hd.
+      unfold len in *. rewrite rev_length. rewrite <- (rev_length d2), E in Hl. cbn [length] in *. lia.
+    - constructor; [apply Hd; exact Hl | exact H2]. }
+  destruct buf as [|b0 b].
+  - apply H2; [exact Ho | lia].
+  - apply H2; [constructor; [|exact Ho] | unfold len; cbn [length]; lia].
+    apply Hs. unfold len. rewrite app_length. cbn [length]. lia.
+Qed.
+
+Lemma ostep_bound : forall k bs st w, (1 <= bs)%N -> (len (o_buf st) <= bs + slack k)%N ->
+  (len (o_buf (ostep_k k bs st w)) <= bs + slack k)%N.
+Proof.
+  intros k bs st w Hb H. destruct w; cbn [ostep_k].
+  - destruct (N.ltb bs (len d)) eqn:E2.
+    + assert (E1 : N.ltb bs (len d + len (o_buf st)) = true) by (unfold len in *; lia). rewrite E1.
+      pose proof (ffm_buf k st) as Hf. destruct k.
+      * pose proof (big_block_buf (flush_for_more true st) d Hf). unfold slack in *. lia.
+      * cbn [o_buf]. unfold slack in *. lia.
+    + destruct (N.ltb bs (len d + len (o_buf st))) eqn:E1.
+      * pose proof (ffm_buf k st) as Hf. cbn [o_buf]. unfold len in *. rewrite app_length. lia.
+      * cbn [o_buf]. unfold len in *. rewrite app_length. lia.
+  - destruct k.
+    + destruct (N.leb bs (len (o_buf st))) eqn:E.
+      * pose proof (ffm_buf true st) as Hf. cbn [o_buf]. unfold len, slack in *. rewrite app_length. cbn [length]. lia.
+      * cbn [o_buf]. unfold len, slack in *. rewrite app_length. cbn [length]. lia.
+    + destruct (N.eqb (len (o_buf st)) bs) eqn:E.
+      * pose proof (ffm_buf false st) as Hf. cbn [o_buf]. unfold len, slack in *. rewrite app_length. cbn [length]. lia.
+      * cbn [o_buf]. unfold len, slack in *. rewrite app_length. cbn [length]. lia.
+  - cbn [o_buf]. assumption.
+  - unfold flush_buffer. destruct (o_buf st) eqn:Eb; [rewrite Eb; cbn; lia | cbn; lia].
+Qed.
+
+Lemma ostep_chunks_ok : forall k bs ws st w, (1 <= bs)%N -> (len (o_buf st) <= bs + slack k)%N ->
+  Forall (chunk_ok k bs ws) (o_out st) -> In w ws -> Forall (chunk_ok k bs ws) (o_out (ostep_k k bs st w)).
+Proof.
+  intros k bs ws st w Hbs Hb Ho Hin.
+  assert (Hsmall : forall d, (len d <= len (o_buf st))%N -> chunk_ok k bs ws (CWide d)) by (intros d Hd; left; lia).
+  assert (Hffm : Forall (chunk_ok k bs ws) (o_out (flush_for_more k st))) by (apply ffm_out; assumption).
+  destruct w; cbn [ostep_k].
+  - destruct (N.ltb bs (len d)) eqn:E2.
+    + assert (E1 : N.ltb bs (len d + len (o_buf st)) = true) by (unfold len in *; lia). rewrite E1.
+      destruct k.
+      * apply big_block_out; [exact Hffm | |].
+        -- intros e He. left. pose proof (ffm_buf true st). unfold slack in *. lia.
+        -- intros e He. right. exists d. split; assumption.
+      * cbn [o_out]. constructor; [right; exact Hin | exact Hffm].
+    + destruct (N.ltb bs (len d + len (o_buf st))); cbn [o_out]; assumption.
+  - destruct k.
+    + destruct (N.leb bs (len (o_buf st))); cbn [o_out]; assumption.
+    + destruct (N.eqb (len (o_buf st)) bs); cbn [o_out]; assumption.
+  - cbn [o_out]. constructor; [exact Hin | exact Ho].
+  - apply flush_out; [exact Ho | left; exact Hb].
+Qed.
+
+Lemma orun_chunks_ok : forall k ws0 ws bs st, (1 <= bs)%N -> (len (o_buf st) <= bs + slack k)%N ->
+  Forall (chunk_ok k bs (ws0 ++ ws)) (o_out st) ->
+  Forall (chunk_ok k bs (ws0 ++ ws)) (o_out (fold_left (ostep_k k bs) ws st))
+  /\ (len (o_buf (fold_left (ostep_k k bs) ws st)) <= bs + slack k)%N.
+Proof.
+  intros k ws0 ws; revert ws0. induction ws as [|w r IH]; intros ws0 bs st Hbs Hb Ho; cbn [fold_left].
   - split; assumption.
   - replace (ws0 ++ w :: r) with ((ws0 ++ [w]) ++ r) in * by (rewrite <- app_assoc; reflexivity).
     apply IH; [assumption | apply ostep_bound; assumption |].
-    apply ostep_chunks_ok; [assumption | assumption | intros d Hd; left; exact Hd |].
-    destruct w; try exact I; cbn [chunk_ok]; [right|]; apply in_or_app; left; apply in_or_app; right; left; reflexivity.
+    apply ostep_chunks_ok; try assumption. apply in_or_app; left; apply in_or_app; right; left; reflexivity.
 Qed.
 
-Lemma chunks_bounded : forall bs ws, Forall (chunk_ok (eff_size bs) ws) (chunks bs ws) /\ (len (o_buf (orun bs ws)) <= eff_size bs)%N.
+Lemma chunks_bounded_k : forall k bs ws,
+  Forall (chunk_ok k (eff_size bs) ws) (chunks_k k bs ws) /\ (len (o_buf (orun_k k bs ws)) <= eff_size bs + slack k)%N.
 Proof.
-  intros bs ws. assert (H1 : (1 <= eff_size bs)%N) by (unfold eff_size; destruct (N.eqb bs 0) eqn:E; lia).
-  destruct (orun_chunks_ok [] ws (eff_size bs) (mkO [] []) H1) as [Ha Hb]; [cbn; lia | constructor |].
-  split; [|exact Hb]. unfold chunks, orun. apply Forall_rev. exact Ha.
+  intros k bs ws. assert (H1 : (1 <= eff_size bs)%N) by (unfold eff_size; destruct (N.eqb bs 0) eqn:E; lia).
+  destruct (orun_chunks_ok k [] ws (eff_size bs) (mkO [] []) H1) as [Ha Hb]; [cbn; lia | constructor |].
+  split; [|exact Hb]. unfold chunks_k, orun_k. apply Forall_rev. exact Ha.
 Qed.
+
